@@ -1,4 +1,55 @@
-(** Harness glue for C03 (stub: no families yet). *)
-From Coq Require Import List String.
-From KV Require Import Glue.Val.
-Definition c03_run (fam : string) (args : list val) : option string := None.
+(** Harness glue for C03: string slicing / char-boundary families. *)
+From Coq Require Import List ZArith Bool String.
+From KV Require Import Base.Prelude Model.Utf8 Model.Str Glue.Val.
+Import ListNotations.
+Local Open Scope string_scope.
+
+Definition show_v (v : view) : string := show_view (fst v) (snd v).
+Definition show_blame (b : blame) : string :=
+  match b with BIndex => "index" | BStart => "start" | BEnd => "end" end.
+Definition show_panic (p : panic) : string :=
+  match p with
+  | PBoundary b i => "PANIC(" ++ show_blame b ++ "," ++ show_Z i ++ ")"
+  | POverflow => "PANIC(overflow)"
+  end.
+Definition show_res {A} (f : A -> string) (r : res A) : string :=
+  match r with Ok a => f a | Panic p => show_panic p | OutOfFuel => "!fuel" end.
+Definition show_vv (p : view * view) : string := "(" ++ show_v (fst p) ++ "," ++ show_v (snd p) ++ ")".
+
+(** everything that takes one index *)
+Definition c03_idx (s : list Z) (i : Z) : string :=
+  show_fields
+    [("bnd", show_bool (is_char_boundary_m s i));
+     ("gu", show_opt show_v (get_up_to_m s i));
+     ("gf", show_opt show_v (get_from_m s i));
+     ("ut", show_res show_v (str_up_to_m s i));
+     ("fr", show_res show_v (str_from_m s i));
+     ("sp", show_res show_vv (split_at_m s i))].
+
+(** everything that takes a (start, end) pair *)
+Definition c03_rng (s : list Z) (a b : Z) : string :=
+  show_fields
+    [("gr", show_opt show_v (get_range_m s a b));
+     ("rg", show_res show_v (str_range_m s a b))].
+
+Fixpoint zs_from (start : Z) (n : nat) : list Z :=
+  match n with O => [] | S k => start :: zs_from (start + 1) k end.
+
+(** one string, every index 0..=len+1, one list per function *)
+Definition c03_scan (s : list Z) : string :=
+  let idx := zs_from 0 (length s + 2) in
+  show_fields
+    [("bnd", show_list (fun i => show_bool (is_char_boundary_m s i)) idx);
+     ("gu", show_list (fun i => show_opt show_v (get_up_to_m s i)) idx);
+     ("gf", show_list (fun i => show_opt show_v (get_from_m s i)) idx);
+     ("ut", show_list (fun i => show_res show_v (str_up_to_m s i)) idx);
+     ("fr", show_list (fun i => show_res show_v (str_from_m s i)) idx)].
+
+Definition c03_run (fam : string) (args : list val) : option string :=
+  if String.eqb fam "c03.idx" then
+    match args with [s; i] => Some (c03_idx (as_bytes s) (as_Z i)) | _ => None end
+  else if String.eqb fam "c03.rng" then
+    match args with [s; a; b] => Some (c03_rng (as_bytes s) (as_Z a) (as_Z b)) | _ => None end
+  else if String.eqb fam "c03.scan" then
+    match args with [s] => Some (c03_scan (as_bytes s)) | _ => None end
+  else None.
